@@ -872,3 +872,45 @@ def calls_under(root, descs=None, vals=None):
                 visit(vv)
     visit(root)
     return out, und
+
+
+def _split_top(s):
+    """split `(a, f(b, c), d)` at its top-level commas"""
+    s = s.strip()
+    if not (s.startswith("(") and s.endswith(")")):
+        return None
+    out, depth, cur = [], 0, ""
+    for ch in s[1:-1]:
+        if ch in "([{":
+            depth += 1
+        elif ch in ")]}":
+            depth -= 1
+        if ch == "," and depth == 0:
+            out.append(cur.strip())
+            cur = ""
+        else:
+            cur += ch
+    if cur.strip():
+        out.append(cur.strip())
+    return out
+
+
+def bool_conds(p):
+    """the boolean facts a path has established, as (description, value) pairs: its `branch` events, plus - for a `match` on a bool or on a
+    tuple of bools with literal patterns (`match (a, b) { (true, _) => .., (false, true) => .. }`) - what the taken arm says about each
+    component. Same information as the if / else-if chain the match replaces."""
+    out = []
+    for e in p.ev:
+        if e[0] == "branch":
+            out.append((e[1].replace("^", ""), e[2]))
+        elif e[0] == "arm" and len(e[2]) == 1:
+            scr, pat = e[1].replace("^", ""), e[2][0]
+            if pat in ("true", "false"):
+                out.append((scr, pat == "true"))
+                continue
+            cs, ps = _split_top(scr), _split_top(pat)
+            if cs and ps and len(cs) == len(ps):
+                for c_, p_ in zip(cs, ps):
+                    if p_ in ("true", "false"):
+                        out.append((c_, p_ == "true"))
+    return out
